@@ -128,6 +128,7 @@ type xferDir struct {
 	flip          []bool    // the writer toggles ordered/unordered before write i (mixed ordering on one stream)
 	shortReads    bool      // the reader sometimes offers a buffer that is too small first
 	recvUnordered int       // directed scenarios: 1 = receiver configures its stream object unordered, 2 = ordered
+	curUnordered  bool      // ordering mode the writer has currently set on its stream object
 
 	tx         *simStream
 	rx         *simStream
@@ -138,6 +139,24 @@ type xferDir struct {
 }
 
 func (d *xferDir) reliable() bool { return d.relType == ReliabilityTypeReliable }
+
+// mixedOrdering: the stream carries ordered and unordered messages (DCEP control messages are
+// always ordered; or the writer toggles the ordering).
+func (d *xferDir) mixedOrdering() bool {
+	for _, f := range d.flip {
+		if f {
+			return true
+		}
+	}
+	if d.unordered {
+		for _, c := range d.dcep {
+			if c {
+				return true
+			}
+		}
+	}
+	return false
+}
 
 type xfer struct {
 	w     *world
@@ -151,6 +170,7 @@ type xfer struct {
 	onRead    func(d *xferDir, r *readRec)
 	bufSize   int
 	odd       []*msgRec // calls that must have had no effect
+	seqBase   bool      // C16: every stream starts its SSN / MID spaces at the run's base (white-box, both ends)
 }
 
 func newXfer(w *world) *xfer {
@@ -263,7 +283,7 @@ func (x *xfer) start() {
 			st := x.gotStream(sender, d.sid, s)
 			d.tx = st
 			s.SetReliabilityParams(d.unordered, d.relType, d.relVal)
-			curUnordered := d.unordered
+			d.curUnordered = d.unordered
 			for i, n := range d.sizes {
 				if d.gaps != nil && d.gaps[i] > 0 {
 					h := vsimBlocking("client.sleep")
@@ -274,12 +294,12 @@ func (x *xfer) start() {
 					x.oddWrite(d, st, s)
 				}
 				if d.flip != nil && d.flip[i] {
-					curUnordered = !curUnordered
-					s.SetReliabilityParams(curUnordered, d.relType, d.relVal)
+					d.curUnordered = !d.curUnordered
+					s.SetReliabilityParams(d.curUnordered, d.relType, d.relVal)
 					w.probe("ordering-toggled-on-stream")
 				}
 				m := w.newMsg(st, n, d.dcep != nil && d.dcep[i])
-				m.unordered, m.relType, m.relVal = curUnordered, d.relType, d.relVal
+				m.unordered, m.relType, m.relVal = d.curUnordered, d.relType, d.relVal
 				if m.dcep {
 					x.index[uint32(m.id)|0x80000000] = m
 				} else {
@@ -300,6 +320,9 @@ func (x *xfer) gotStream(ep *endpoint, sid uint16, s *Stream) *simStream {
 		return st
 	}
 	st := x.stream(ep, sid, s)
+	if x.seqBase {
+		accSetSeqBase(s, uint16(w.params["ssn"]), uint32(w.params["mid"]))
+	}
 	// find the direction this endpoint receives on
 	var d *xferDir
 	for _, c := range x.dirs {
@@ -388,8 +411,23 @@ func (x *xfer) gotStream(ep *endpoint, sid uint16, s *Stream) *simStream {
 					if after := accReasmCounter(st.s); after < before && d.reliable() {
 						w.violate("C11", "short-read-released-bytes", "%s stream %d: a read that failed with ErrShortBuffer changed the queued-byte counter from %d to %d although the message is still queued", ep.name, sid, before, after)
 					}
-					// the adequate read that follows must return that same message
+					// the adequate read that follows must return that same message; where ordered and
+					// unordered messages share the stream another complete message of the other kind
+					// may be handed out first, the refused one must still follow
 					r2 := w.read(st, buf, x.index)
+					for tries := 0; d.mixedOrdering() && r2.err == nil && r2.n != rs.n && tries < 64; tries++ {
+						w.probe("short-buffer-other-kind-first")
+						nread++
+						if x.onRead != nil {
+							x.onRead(d, r2)
+						}
+						r2 = w.read(st, buf, x.index)
+					}
+					if r2.err != nil && d.mixedOrdering() && (errors.Is(r2.err, io.EOF) || w.tornDown || w.stopped()) {
+						st.readErr = r2.err
+						st.readerDone = true
+						return
+					}
 					if r2.err != nil || r2.n != rs.n {
 						w.violate("C18", "short-buffer-lost-message", "%s stream %d: after ErrShortBuffer (message of %d bytes) the next read returned n=%d err=%v", ep.name, sid, rs.n, r2.n, r2.err)
 						st.readerDone = true
@@ -723,23 +761,28 @@ func (x *xfer) oddWrite(d *xferDir, st *simStream, s *Stream) {
 		asDCEP := d.dcep != nil && tp.intn(2) == 0
 		m := w.newMsg(st, 8+tp.intn(2000), asDCEP)
 		m.odd = "deadline"
-		m.unordered, m.relType, m.relVal = d.unordered, d.relType, d.relVal
+		m.unordered, m.relType, m.relVal = d.curUnordered, d.relType, d.relVal
 		if asDCEP {
 			x.index[uint32(m.id)|0x80000000] = m
 		}
 		x.index[m.ppi] = m
+		// (listed as an ordinary message while in progress: the peer may read it before the call returns)
+		d.msgs = append(d.msgs, m)
 		w.write(st, m)
 		_ = s.SetWriteDeadline(time.Time{})
 		if m.err != nil {
+			for i, q := range d.msgs {
+				if q == m {
+					d.msgs = append(d.msgs[:i:i], d.msgs[i+1:]...)
+					break
+				}
+			}
 			x.odd = append(x.odd, m)
 			d.failedOdd++
 			if m.n != 0 {
 				w.violate("C18", "failed-write-length", "%s stream %d: a blocking write that failed with %v returned n=%d", ep.name, d.sid, m.err, m.n)
 			}
 			w.probe("odd.write-deadline-expired")
-		} else {
-			// it went through: an ordinary accepted message
-			d.msgs = append(d.msgs, m)
 		}
 	}
 }
